@@ -88,8 +88,26 @@ class _Obj:
 
 
 def _val(v):
-    """case value -> python value (element-valued items never occur outside element items)"""
+    """case value -> python value.  Numbers JSON cannot carry are tagged: {"float": "1.5" | "inf" | "nan"},
+    {"decimal": "1.7"}, {"fraction": "3/2"} (such cases are oracle-only: the Lean `Val` has no such numbers)."""
+    if isinstance(v, dict):
+        if "float" in v:
+            return float(v["float"])
+        if "decimal" in v:
+            import decimal
+            return decimal.Decimal(v["decimal"])
+        if "fraction" in v:
+            import fractions
+            return fractions.Fraction(v["fraction"])
     return v
+
+
+def _has_exotic_number(x):
+    if isinstance(x, dict):
+        return any(k in x for k in ("float", "decimal", "fraction")) or any(_has_exotic_number(y) for y in x.values())
+    if isinstance(x, list):
+        return any(_has_exotic_number(y) for y in x)
+    return False
 
 
 def mk_state(st):
@@ -190,7 +208,7 @@ def mk_chain(chain):
         for k, v in _attrs(e).items():
             if k in ("name", "label", "value", "u"):
                 continue
-            setattr(els[i], k, v)
+            setattr(els[i], k, _val(v))
     return el
 
 
@@ -198,7 +216,7 @@ def mk_validator(case):
     from flatland.validation import Validator
     m = case["msg"]
     msg = m["s"] if m["t"] == "plain" else (m["s"], m["p"], m["n"])
-    attrs = {k: v for k, v in case.get("vattrs", [])}
+    attrs = {k: _val(v) for k, v in case.get("vattrs", [])}
     if case.get("callable"):
         the = msg
         attrs["m_"] = staticmethod(lambda element, state: the)
@@ -242,7 +260,7 @@ def run_syn(case):
         assert got == v, "harness: element attribute %s is %r, case says %r" % (k, got, v)
     state = mk_state(case.get("state"))
     v = mk_validator(case)
-    kwargs = {k: val for k, val in case.get("kwargs", [])}
+    kwargs = {k: _val(val) for k, val in case.get("kwargs", [])}
     el.errors[:] = list(case.get("pre_errors", []))
     out = {"raise": None, "result": None}
     with _Builtins(case.get("builtins")):
@@ -250,11 +268,20 @@ def run_syn(case):
             res = v.expand_message(el, state, v.m_, **kwargs)
             out["result"] = _noaddr(res) if isinstance(res, str) else "<%s>" % type(res).__name__
         except Exception as e:
+            if type(e).__name__ == "CaseTimeout":
+                raise  # the harness' per-case alarm: a hang, not a Python exception of the library
             out["raise"] = type(e).__name__
+            out["_exc_msg"] = str(e)
+            tb = e.__traceback__
+            while tb.tb_next is not None:
+                tb = tb.tb_next
+            out["_exc_file"] = os.path.basename(tb.tb_frame.f_code.co_filename)
         try:
             ret = v.note_error(el, state, "m_", **kwargs)
             out["_note_error_ret"] = ret
         except Exception as e:
+            if type(e).__name__ == "CaseTimeout":
+                raise
             out["_note_error_raise"] = type(e).__name__
     out["errors"] = [_noaddr(m) for m in el.errors]
     return out
@@ -271,6 +298,75 @@ def _noaddr(text):
 # ------------------------------------------------------------------ oracle (spec B transcribed in Python)
 
 _PH = re.compile(r"%(?:\(([^()]*)\)s|%)")
+
+
+def scan_class(tmpl):
+    """how the model's `%` scanner classifies a template: "ok", "ValueError" (malformed: Python raises it too) or
+    "unsupported" (a conversion other than %(key)s / %%)"""
+    i, n = 0, len(tmpl)
+    while i < n:
+        if tmpl[i] != "%":
+            i += 1
+            continue
+        i += 1
+        if i >= n:
+            return "ValueError"
+        if tmpl[i] == "%":
+            i += 1
+            continue
+        if tmpl[i] != "(":
+            return "unsupported"
+        depth = 1
+        i += 1
+        while i < n and depth:
+            depth += {"(": 1, ")": -1}.get(tmpl[i], 0)
+            i += 1
+        if depth:
+            return "ValueError"
+        if i >= n:
+            return "ValueError"
+        if tmpl[i] != "s":
+            return "unsupported"
+        i += 1
+    return "ok"
+
+
+def simulate_format(tmpl, get):
+    """`tmpl % mapping` in CPython's order (the key is fetched when its `)` is read): -> text, or ("KeyError", repr(key)),
+    ("ValueError", "incomplete format…"), or None for a conversion outside %(key)s / %%.  `get(key)` -> (found, text)"""
+    out, i, n = [], 0, len(tmpl)
+    while i < n:
+        ch = tmpl[i]
+        if ch != "%":
+            out.append(ch)
+            i += 1
+            continue
+        i += 1
+        if i >= n:
+            return ("ValueError", "incomplete format")
+        if tmpl[i] == "%":
+            out.append("%")
+            i += 1
+            continue
+        if tmpl[i] != "(":
+            return None
+        depth, j = 1, i + 1
+        while j < n and depth:
+            depth += {"(": 1, ")": -1}.get(tmpl[j], 0)
+            j += 1
+        if depth:
+            return ("ValueError", "incomplete format key")
+        key = tmpl[i + 1:j - 1]
+        found, text = get(key)
+        if not found:
+            return ("KeyError", repr(key))
+        if j >= n:
+            return ("ValueError", "incomplete format")
+        if tmpl[j] != "s":
+            return None
+        out.append(text)
+        i = j + 1
+    return "".join(out)
 
 
 def fragment_ok(tmpl):
@@ -326,7 +422,7 @@ def _text(v):
         return v["elem"]
     if isinstance(v, dict) and "method" in v:
         return "<built-in method %s of %s object>" % (v["method"], v["owner"])
-    return str(v)
+    return str(_val(v))
 
 
 def doc_lookup(srcs, key):
@@ -357,7 +453,10 @@ def doc_translator(case, which):
 
 
 def _count_number(v):
-    """the number a count stands for, or None"""
+    """the number a count stands for (an int for text and integral numbers), or None when it is not a number"""
+    import decimal
+    import fractions
+    v = _val(v)
     if isinstance(v, bool):
         return int(v)
     if isinstance(v, int):
@@ -367,10 +466,31 @@ def _count_number(v):
             return int(v)
         except ValueError:
             return None
+    if isinstance(v, (float, decimal.Decimal, fractions.Fraction)):
+        try:
+            if v == int(v):
+                return int(v)
+        except (ValueError, OverflowError, ArithmeticError):
+            pass
+        return v  # 1.5, inf, nan: a number, never equal to 1
     return None
 
 
+def _not_a_finite_number(num):
+    """None (not a number at all), nan or an infinity"""
+    if num is None:
+        return True
+    if isinstance(num, int):
+        return False
+    try:
+        int(num)
+        return False
+    except (ValueError, OverflowError, ArithmeticError):
+        return True
+
+
 NORAISE = "<some expansion, no exception>"
+MALFORMED = "<ValueError: incomplete format>"
 
 
 def _catalogue_form(lang, single, plural, idx):
@@ -398,9 +518,9 @@ def expected_syn(case, quirks=()):
         num = _count_number(n)
         ndesc = doc_translator(case, "n")
         if ndesc is not None and "locale" in ndesc:
-            if num is None:
-                # the count is handed to gettext's ngettext, which accepts numbers only: the documentation still
-                # promises an expansion (the plural form); which text exactly is gettext's business
+            if _not_a_finite_number(num):
+                # the count is handed to gettext's ngettext, which accepts finite numbers only: the documentation
+                # still promises an expansion (the plural form); which text exactly is gettext's business
                 return NORAISE, "gettext's ngettext needs a number"
             if "kf_c" in quirks:
                 tmpl = mk_n(ndesc)(m["s"], m["p"], num)
@@ -412,6 +532,12 @@ def expected_syn(case, quirks=()):
             tmpl = mk_n(ndesc)(m["s"], m["p"], num if num is not None else n)
         else:
             tmpl = tr(m["s"]) if num == 1 else tr(m["p"])
+    if isinstance(tmpl, str) and quirks:
+        # what the findings predict, whatever form they make the count select (possibly one that is no template)
+        def get(key):
+            found, v = doc_lookup(srcs, key)
+            return found, (_text(tr(v)) if found else None)
+        return simulate_format(tmpl, get), "prediction under the lookup quirks"
     if not isinstance(tmpl, str) or not fragment_ok(tmpl):
         return None, "template outside the %(key)s fragment"
     out = []
@@ -424,6 +550,8 @@ def expected_syn(case, quirks=()):
             continue
         found, v = doc_lookup(srcs, mt.group(1))
         if not found:
+            if quirks:
+                return ("KeyError", repr(mt.group(1))), "the form the quirk selects uses a key no source defines"
             return None, "key %r is not defined by any source" % mt.group(1)
         out.append(_text(tr(v)))
     out.append(tmpl[pos:])
@@ -444,7 +572,8 @@ def oracle_syn(case):
     if exp is None:
         return fails  # outside the documented domain: nothing is promised
     if obs["raise"] is not None:
-        fails.append({"clause": "expands-without-error", "expected": exp, "observed": obs["raise"]})
+        fails.append({"clause": "expands-without-error", "expected": exp, "observed": obs["raise"],
+                      "_exc_msg": obs.get("_exc_msg"), "_exc_file": obs.get("_exc_file")})
         return fails
     if exp == NORAISE:
         return fails
@@ -530,6 +659,8 @@ def run_builtin(case):
             ret = v(el, state)
             out["verdict"] = ret if isinstance(ret, bool) else "<%s>" % type(ret).__name__
         except Exception as e:
+            if type(e).__name__ == "CaseTimeout":
+                raise  # the harness' per-case alarm: a hang, not a Python exception of the library
             out["raise"] = type(e).__name__
     out["errors"] = list(el.errors)
     return out, el, v, g, n
@@ -593,6 +724,21 @@ def oracle_builtin(case):
             tmpl = tr(tmpl)
         text = tmpl % M()
         candidates.append((pre if text in pre else pre + [text], tmpl, by_ngettext, cnt))
+    # the property: "the singular form exactly when the count is 1" — a form that SHOWS the count (its template
+    # substitutes the count key) is acceptable for any count, whatever index the catalogue keeps it under
+    for key in keys:
+        t0 = getattr(v, key)
+        if isinstance(t0, tuple) and n:
+            single, plural, nkey = t0
+            cnt0 = tr(val(nkey))
+            try:
+                cnt0 = int(cnt0)
+            except (TypeError, ValueError, OverflowError):
+                continue
+            chosen = n(single, plural, cnt0)
+            if ("%%(%s)s" % nkey) in chosen:
+                text = chosen % M()
+                candidates.append((pre if text in pre else pre + [text], chosen, None, cnt0))
     if obs["errors"] not in [c[0] for c in candidates]:
         exp, tmpl, by_ngettext, cnt = candidates[0]
         f = {"clause": "translated-expansion", "expected": exp, "observed": obs["errors"]}
@@ -734,6 +880,7 @@ def predicted_by_findings(case):
     text, _ = expected_syn(case, tuple(quirks))
     if text is None or text == NORAISE:
         return None
+    # (text may be MALFORMED: the shadowing value changes the count, and the form chosen instead is not a template)
     return ("KF-C16-a" if "kf_a" in quirks else "KF-C16-d"), text
 
 
@@ -754,21 +901,39 @@ def in_class_kf_c(case):
     return isinstance(cnt, int) and cnt <= 0
 
 
-def in_class_kf_b(case):
+def in_class_kf_e(case):
     """plural triple handed to a gettext-backed ungettext (GNUTranslations.ngettext) with a count that is not a
-    number: non-integer text, None, or a count key no source defines"""
+    finite number: non-integer text, None, a count key no source defines, nan, an infinity, or — through the lookup
+    quirks KF-C16-a/-d — a child element or a bound method"""
     if case.get("k") != "syn" or case["msg"]["t"] != "plural":
         return False
     ndesc = doc_translator(case, "n")
     if not (isinstance(ndesc, dict) and "locale" in ndesc):
         return False
-    found, n = doc_lookup(doc_sources(case), case["msg"]["n"])
+    quirks = tuple(q for q, f in (("kf_a", in_class_kf_a), ("kf_d", in_class_kf_d)) if f(case))
+    found, n = doc_lookup(doc_sources(case, quirks), case["msg"]["n"])
     if not found:
         return True
+    if isinstance(n, dict) and ("elem" in n or "method" in n):
+        return True
     u = mk_u(doc_translator(case, "u"))
-    if u:
+    n = _val(n)
+    if u and isinstance(n, str):
         n = u(n)
-    return _count_number(n) is None
+    return _not_a_finite_number(_count_number(n))
+
+
+def kf_e_exception_matches(failure):
+    """the exception KF-C16-e predicts: raised inside gettext.py by the plural function — TypeError 'Plural value
+    must be an integer, got …', or for nan / an infinity ValueError / OverflowError 'cannot convert float …'"""
+    if failure.get("_exc_file") != "gettext.py":
+        return False
+    name, msg = failure.get("observed"), failure.get("_exc_msg") or ""
+    if name == "TypeError":
+        return msg.startswith("Plural value must be an integer")
+    if name in ("OverflowError", "ValueError"):
+        return msg.startswith("cannot convert")
+    return False
 
 
 # ------------------------------------------------------------------ generators
@@ -808,6 +973,10 @@ def priority_case(key, pattern, state_kind="objdict", extra=None):
 
 
 COUNTS = [0, 1, 2, 5, -1, "1", " 1 ", "+1", "01", "1_0", "2", True, False, None, 100]
+# numbers JSON / the Lean `Val` cannot carry (oracle-only cases): integral and non-integral floats, Decimals, Fractions
+EXOTIC_COUNTS = [{"float": "1.0"}, {"float": "1.5"}, {"float": "1.999"}, {"float": "0.5"}, {"float": "2.0"}, {"float": "inf"},
+                 {"float": "-inf"}, {"float": "nan"}, {"decimal": "1"}, {"decimal": "1.0"}, {"decimal": "1.7"}, {"decimal": "NaN"},
+                 {"decimal": "Infinity"}, {"fraction": "1"}, {"fraction": "3/2"}, {"fraction": "2"}]
 BAD_COUNTS = ["abc", "", "1.0", "1 0", "_1", "1_"]
 
 
@@ -972,36 +1141,6 @@ def sanitize(c):
             m["n"] = "cnt"
     # the repr of a bound method carries an address that differs from call to call: no dedup to observe
     c["pre_errors"] = [m for m in c.get("pre_errors", []) if "<built-in method" not in m]
-    if c["chain"][0]["kind"] == "dict":
-        # a child *element* handed to real gettext is unhashable (part of KF-C16-a, not modelled): keep the
-        # shipped catalogues away from Mapping elements with children
-        def detag(t):
-            return {"tag": "L", "tbl": []} if isinstance(t, dict) and "locale" in t else t
-        st = c.get("state") or {}
-        for key in ("u_attr", "u_item"):
-            if isinstance(st.get(key), dict):
-                st[key] = {"v": detag(st[key]["v"])}
-        for e in c["chain"]:
-            if isinstance(e.get("u_inst"), dict):
-                e["u_inst"] = {"v": detag(e["u_inst"]["v"])}
-            if "u_cls" in e:
-                e["u_cls"] = detag(e["u_cls"])
-        b = c.get("builtins") or {}
-        if isinstance(b.get("u"), dict):
-            b["u"] = {"v": detag(b["u"]["v"])}
-
-        def detag_n(t):
-            return {"tag": "M", "rule": "ne1"} if isinstance(t, dict) and "locale" in t else t
-        for key in ("n_attr", "n_item"):
-            if isinstance(st.get(key), dict):
-                st[key] = {"v": detag_n(st[key]["v"])}
-        for e in c["chain"]:
-            if isinstance(e.get("n_inst"), dict):
-                e["n_inst"] = {"v": detag_n(e["n_inst"]["v"])}
-            if "n_cls" in e:
-                e["n_cls"] = detag_n(e["n_cls"])
-        if isinstance(b.get("n"), dict):
-            b["n"] = {"v": detag_n(b["n"]["v"])}
     return c
 
 
@@ -1048,10 +1187,10 @@ def _hostile_syn(rng):
     elif r < 0.8:
         if c["msg"]["t"] == "plural":
             nkey = c["msg"]["n"]
-            c["kwargs"] = [kv for kv in c["kwargs"] if kv[0] != nkey] + [[nkey, rng.choice(BAD_COUNTS)]]
+            c["kwargs"] = [kv for kv in c["kwargs"] if kv[0] != nkey] + [[nkey, rng.choice(BAD_COUNTS + EXOTIC_COUNTS)]]
         else:
             c["msg"] = {"t": "plural", "s": "one", "p": "many %(cnt)s", "n": "cnt"}
-            c["kwargs"] = [kv for kv in c["kwargs"] if kv[0] != "cnt"] + [["cnt", rng.choice(BAD_COUNTS)]]
+            c["kwargs"] = [kv for kv in c["kwargs"] if kv[0] != "cnt"] + [["cnt", rng.choice(BAD_COUNTS + EXOTIC_COUNTS)]]
     else:
         c["msg"] = {"t": "plain", "s": rng.choice(["%s", "%(label)d", "%(label)r", "%(label)-5s", "%d %(label)s"])}
     return c
@@ -1074,6 +1213,7 @@ class C16(Property):
         "catalogues_listed", "catalogue_placeholders", "catalogue_complete", "builtin_keys_supplied",
         "builtin_no_escape", "fr_singular_drops_count")]
     quick_n = 100000
+    case_timeout = 30   # per-case alarm (run_impl and oracle each): a hang is reported as an oracle failure
     thorough_n = 600000
     trusted_base = [
         "Python's `str % mapping` modelled for the fragment %(key)s / %% only (other conversions are reported as Unsupported and not compared)",
@@ -1083,6 +1223,8 @@ class C16(Property):
         "attribute lookup on real objects (instance over class attributes) is Python's; the model is told the resolved attributes of the case",
     ]
     assumptions = [
+        "float / Decimal / Fraction values (1.5, 1.0, inf, nan, Decimal('1.7'), Fraction(3,2) …) as counts are generated but oracle-only (tag oracle-only / exotic-number): the Lean `Val` has none; the reference computes the expected form — plural unless the count == 1",
+        "cases whose template uses a `%` conversion outside %(key)s / %% are oracle-only too and are not counted as validated traces",
         "with a user-supplied ungettext the choice of the plural form is delegated to it (documented); 'singular iff count = 1' is checked without an ungettext and against the shipped catalogues' own msgstr[0|1] (KF-C16-c for fr)",
         "spec B resolves instance-over-class attributes per element along the ancestry (Python attribute lookup); the docstring of find_transformer lists 'element or parents' before 'their schemas' — the property text (nearest ancestor) is what B states",
         "keys used in templates are drawn from a pool that avoids attributes the harness does not describe (dunder attributes of dict/list targets, Element API names other than label/name/value/u); the public methods of the keyword dict and of dict/list states are modelled",
@@ -1141,9 +1283,26 @@ class C16(Property):
         c["kwargs"] = [["k1", "kw-k1"]]
         c["state"] = {"kind": "dict", "items": [["k1", "si-k1"]], "attrs": []}
         out.append(c)
-        # open KF-C16-b (residual): the same count handed to real gettext's ngettext
-        c = copy.deepcopy(c)
-        c["state"]["n_item"] = {"v": {"locale": "de"}}
+        # open KF-C16-e (was KF-C16-b, residual): a count that is not a number handed to real gettext's ngettext
+        for cnt in ("abc", None, {"float": "inf"}, {"float": "nan"}):
+            c = base_case()
+            c["msg"] = {"t": "plural", "s": "one", "p": "many %(cnt)s", "n": "cnt"}
+            c["kwargs"] = [["cnt", cnt]]
+            c["state"] = {"kind": "dict", "items": [], "attrs": [], "n_item": {"v": {"locale": "de"}}}
+            out.append(c)
+        # fixed 19f266a: non-integral counts choose the plural form, 1.0 / Decimal('1') the singular one
+        for cnt in ({"float": "1.5"}, {"float": "1.0"}, {"decimal": "1.7"}, {"decimal": "1"}, {"fraction": "3/2"}, {"float": "inf"}):
+            c = base_case()
+            c["msg"] = {"t": "plural", "s": "one", "p": "many %(cnt)s", "n": "cnt"}
+            c["kwargs"] = [["cnt", cnt]]
+            out.append(c)
+        # 5f613f8 / audit rev6 C16-F1: a Mapping element with a child named like a key, under a shipped locale —
+        # the child element is unhashable and passes untranslated (KF-C16-a still substitutes it)
+        c = base_case()
+        c["chain"][0] = {"kind": "dict", "attrs": [["name", "d"], ["label", "d"]], "items": [["label", {"elem": "child"}], ["x", {"elem": ""}]]}
+        c["msg"] = {"t": "plain", "s": "%(label)s may not contain %(k1)s"}
+        c["kwargs"] = [["k1", "z"]]
+        c["state"] = {"kind": "dict", "items": [], "attrs": [], "u_item": {"v": {"locale": "fr"}}, "n_item": {"v": {"locale": "fr"}}}
         out.append(c)
         # open KF-C16-c: French catalogue, count 0
         from harness.props import c15
@@ -1195,6 +1354,11 @@ class C16(Property):
         if case["k"] == "builtin":
             from harness.props import c15
             return c15.PROP.has_model(case["c15"])
+        if _has_exotic_number(case):
+            return False  # float / Decimal / Fraction values: the Lean `Val` has none — oracle only
+        m = case["msg"]
+        if any(scan_class(m[f]) == "unsupported" for f in ("s", "p") if f in m):
+            return False  # `%` conversions outside %(key)s / %%: not modelled, so not counted as validated traces
         return True
 
     def run_impl(self, case):
@@ -1225,10 +1389,24 @@ class C16(Property):
             if pred is not None:
                 fid, text = pred
                 want = text if cl == "documented-expansion" else expected_errors(case, text)
-                if failure.get("observed") == want:
+                if isinstance(text, str) and text != MALFORMED and failure.get("observed") == want:
                     return fid
-        if in_class_kf_b(case) and cl == "expands-without-error" and failure.get("observed") == "TypeError":
-            return "KF-C16-b"
+        if case.get("k") == "syn" and cl == "expands-without-error" and failure.get("observed") == "ValueError" \
+                and failure.get("_exc_file") == "base.py" and (failure.get("_exc_msg") or "").startswith("incomplete format"):
+            # the only exception a lookup finding can predict: the shadowing value changes the count of a plural
+            # triple, and the form selected instead is a malformed template
+            pred = predicted_by_findings(case)
+            if pred is not None and isinstance(pred[1], tuple) and pred[1][0] == "ValueError" \
+                    and failure.get("_exc_msg") == pred[1][1]:
+                return pred[0]
+        if case.get("k") == "syn" and cl == "expands-without-error" and failure.get("observed") == "KeyError" \
+                and failure.get("_exc_file") == "base.py":
+            # likewise: the form selected instead uses a key that no source defines
+            pred = predicted_by_findings(case)
+            if pred is not None and pred[1] == ("KeyError", failure.get("_exc_msg")):
+                return pred[0]
+        if in_class_kf_e(case) and cl == "expands-without-error" and kf_e_exception_matches(failure):
+            return "KF-C16-e"
         if in_class_kf_c(case) and cl == "singular-iff-count-is-one" and \
                 failure.get("observed") == failure.get("_ngettext_choice"):
             return "KF-C16-c"
@@ -1259,7 +1437,32 @@ class C16(Property):
                 t.append("ungettext=%s" % ("yes" if n else "no"))
             if case.get("pre_errors"):
                 t.append("pre-errors")
+            # how often the hypotheses of the theorems hold
+            in_a, in_d = in_class_kf_a(case), in_class_kf_d(case)
+            keys_in_scope = not in_a and not in_d
+            t.append("hyp:priority_partial/KeyInScope=%s" % ("holds" if keys_in_scope else "fails"))
+            if st is None or st["kind"] != "seq":
+                t.append("hyp:findTransformer_eq_spec(by construction)=holds")
+            if case["msg"]["t"] == "plain":
+                if keys_in_scope and self.has_model(case):
+                    t.append("hyp:expand_plain_refines=holds")
+            else:
+                if n is None:
+                    t.append("hyp:plural_choice(no ungettext)=holds")
+                    if keys_in_scope and self.has_model(case):
+                        t.append("hyp:expand_plural_refines=holds")
+                else:
+                    t.append("hyp:ungettext_receives_count=holds")
+            if obs.get("raise") is None and obs.get("result") is not None:
+                t.append("hyp:expandMessage_ok_expansion=holds")
+            if not self.has_model(case):
+                t.append("oracle-only")
+            if _has_exotic_number(case):
+                t.append("exotic-number")
         else:
+            loc = case.get("lang")
+            if loc and obs.get("verdict") is False:
+                t.append("hyp:catalogue_expand_total=holds")
             t.append("lang=%s" % case.get("lang"))
             t.append("place=" + case["place"])
             t.append("builtin=" + case["c15"]["v"]["cls"])
